@@ -29,7 +29,7 @@ theorem Frame.trans {s s' s'' : St} (a : Frame s s') (b : Frame s' s'') : Frame 
 /-- every recursive call respects the evaluation context -/
 def FrameRec (rec : Rec) : Prop := ∀ t s s' r, rec t s = some (s', r) → Frame s s'
 
-theorem addParent_ctx {s s' : St} {p : Nat} {r : PRef} {v : Int} {res : R} (h : addParent s p r v = (s', res)) :
+theorem addParent_ctx {s s' : St} {p : Nat} {r : PRef} {v : V} {res : R} (h : addParent s p r v = (s', res)) :
     s'.cur = s.cur ∧ s'.depth = s.depth ∧ s'.proc = s.proc := by
   unfold addParent at h
   split at h
@@ -150,7 +150,7 @@ theorem evalTree_frame {rec : Rec} (hrec : FrameRec rec) : ∀ (t : Tree) (s s' 
     injection h with h; injection h with h1 _; subst h1
     exact Frame.refl _
 
-theorem precheck_frame {rec : Rec} (hrec : FrameRec rec) : ∀ (ps : List (PRef × Int)) (s s' : St) (r : Except Err Bool),
+theorem precheck_frame {rec : Rec} (hrec : FrameRec rec) : ∀ (ps : List (PRef × V)) (s s' : St) (r : Except Err Bool),
     precheck rec ps s = some (s', r) → Frame s s' := by
   intro ps
   induction ps with
@@ -213,16 +213,11 @@ theorem readAll_frame {rec : Rec} (hrec : FrameRec rec) : ∀ (cs : List Nat) (s
         simp only at h
         exact f1.trans (ih s1 s' r h)
       | err e =>
-        cases e with
-        | noneVal =>
-          simp only at h
-          exact f1.trans (ih s1 s' r h)
-        | _ =>
-          simp only at h
-          injection h with h; injection h with h1 _; subst h1
-          exact f1
+        simp only at h
+        injection h with h; injection h with h1 _; subst h1
+        exact f1
 
-theorem notifyLoop_frame {rec : Rec} (hrec : FrameRec rec) (k : Key) (old new : Option Int) :
+theorem notifyLoop_frame {rec : Rec} (hrec : FrameRec rec) (k : Key) (old new : V) :
     ∀ (xs : List Sub) (s s' : St) (r : Except Err Unit),
     notifyLoop rec k old new xs s = some (s', r) → Frame s s' := by
   intro xs
@@ -251,7 +246,7 @@ theorem notifyLoop_frame {rec : Rec} (hrec : FrameRec rec) (k : Key) (old new : 
           simp only at h
           split at h
           · exact ih s s' r h
-          · cases hg : rec (.notify (cx.owner, cx.name) cx.value none) (s.setComp c { cx with dirty := true }) with
+          · cases hg : rec (.notify (cx.owner, cx.name) cx.value.join none) (s.setComp c { cx with dirty := true }) with
             | none => simp [hg] at h
             | some res =>
               obtain ⟨s1, r1⟩ := res
@@ -284,7 +279,7 @@ theorem notifyLoop_frame {rec : Rec} (hrec : FrameRec rec) (k : Key) (old new : 
             simp only at h
             exact f1.trans (ih s1 s' r h)
 
-theorem notifyT_frame {rec : Rec} (hrec : FrameRec rec) {k : Key} {old new : Option Int} {s s' : St} {r : R}
+theorem notifyT_frame {rec : Rec} (hrec : FrameRec rec) {k : Key} {old new : V} {s s' : St} {r : R}
     (h : notifyT rec k old new s = some (s', r)) : Frame s s' := by
   unfold notifyT at h
   cases hg : notifyLoop rec k old new ((s.regs k.1).subs k.2 .change) s with
@@ -304,13 +299,13 @@ theorem notifyT_frame {rec : Rec} (hrec : FrameRec rec) {k : Key} {old new : Opt
       exact f1.trans (Frame.of_eq rfl rfl rfl)
 
 /-- G10 repaired: an assignment (rejected, raising in a handler, or completed) leaves the record alone -/
-theorem assignT_frame {rec : Rec} (hrec : FrameRec rec) {k : Key} {v : Int} {s s' : St} {r : R}
+theorem assignT_frame {rec : Rec} (hrec : FrameRec rec) {k : Key} {v : V} {s s' : St} {r : R}
     (h : assignT rec k v s = some (s', r)) : Frame s s' := by
   unfold assignT at h
   split at h
   · injection h with h; injection h with h1 _; subst h1
     exact Frame.refl _
-  · cases hg : rec (.notify k (some (s.store k)) (some v)) s with
+  · cases hg : rec (.notify k (s.store k) v) s with
     | none => simp [hg] at h
     | some res =>
       obtain ⟨s1, r1⟩ := res
@@ -428,15 +423,15 @@ theorem getC_frame {rec : Rec} (hrec : FrameRec rec) {c : Nat} {s s' : St} {r : 
         simp only at h
         -- the value is remembered by the evaluating Computed, if any
         have key : ∀ s2 : St, Frame s1 s2 →
-            (if some new ≠ x.value then
-              match rec (.notify (x.owner, x.name) x.value (some new)) s2 with
+            (if new ≠ x.value.join then
+              match rec (.notify (x.owner, x.name) x.value.join new) s2 with
               | none => none
               | some (s3, .err e) => some (s3, .err e)
               | some (s3, .ok _) => some (s3, .ok new)
             else some (s2, R.ok new)) = some (s', r) → Frame s s' := by
           intro s2 f2 h2
           split at h2
-          · cases hn : rec (.notify (x.owner, x.name) x.value (some new)) s2 with
+          · cases hn : rec (.notify (x.owner, x.name) x.value.join new) s2 with
             | none => simp [hn] at h2
             | some res =>
               obtain ⟨s3, r3⟩ := res
@@ -513,14 +508,14 @@ theorem step_frame (fuel : Nat) {s s' : St} {op : Op} {r : R} (h : step fuel s o
 /-- one node of a function body, executed with the recursive calls `rec`: what `evalTree` does before it goes
     on with the rest of the function (`t, s` ⟶ `t', s'`); no step = the node raised, ran out of fuel, or is `ret` -/
 inductive TStep (rec : Rec) : Tree → St → Tree → St → Prop
-  | read {s s1 : St} {p : Nat} {u : Int} (k : Key) (cont : Int → Tree) (hcur : s.cur = some p)
+  | read {s s1 : St} {p : Nat} {u : V} (k : Key) (cont : V → Tree) (hcur : s.cur = some p)
       (h : addParent s p (.obs k) (s.store k) = (s1, .ok u)) :
       TStep rec (.read k cont) s (cont (s.store k)) { s1 with proc := k :: s1.proc }
-  | readTop {s : St} (k : Key) (cont : Int → Tree) (hcur : s.cur = none) :
+  | readTop {s : St} (k : Key) (cont : V → Tree) (hcur : s.cur = none) :
       TStep rec (.read k cont) s (cont (s.store k)) s
-  | readC {s s1 : St} {v : Int} (c : Nat) (cont : Int → Tree) (h : rec (.readC c) s = some (s1, .ok v)) :
+  | readC {s s1 : St} {v : V} (c : Nat) (cont : V → Tree) (h : rec (.readC c) s = some (s1, .ok v)) :
       TStep rec (.readC c cont) s (cont v) s1
-  | write {s s1 : St} {u : Int} (k : Key) (v : Int) (next : Tree) (h : rec (.assign k v) s = some (s1, .ok u)) :
+  | write {s s1 : St} {u : V} (k : Key) (v : V) (next : Tree) (h : rec (.assign k v) s = some (s1, .ok u)) :
       TStep rec (.write k v next) s next s1
 
 /-- any number of such steps -/
@@ -572,7 +567,7 @@ theorem TSteps.frame {rec : Rec} (hrec : FrameRec rec) {t t' : Tree} {s s' : St}
   | head h _ ih => exact (h.frame hrec).trans ih
 
 /-- the assignment to a key on record raises -/
-theorem write_inside {p : Nat} {k : Key} {s : St} (i : Inside p k s) (f : Nat) (v : Int) (next : Tree) :
+theorem write_inside {p : Nat} {k : Key} {s : St} (i : Inside p k s) (f : Nat) (v : V) (next : Tree) :
     evalTree (exec (f + 1)) (.write k v next) s = some (s, .err .value) := by
   have hmem : k ∈ s.proc := i.mem
   simp [evalTree, exec, stepF, assignT, i.cur, hmem]
